@@ -47,6 +47,10 @@ P = {
          "slot 0 holds the snapshot's meta and slot 1 the same meta with txid-1 opens at slot 0. Tie: WriteTo with write transactions committed between the chunks of the copy, and CopyFile; byte count, Tx.Size, "
          "metas, dump vs the Spec snapshot of the reader, decoder accounting, Tx.Check.",
          "Truly concurrent writer goroutines are not used (interleaving is at chunk boundaries of the copy); remaps during a backup are avoided (they would wait for the backup's own reader).", "DESIGN.md §8 C14"),
+ "C20": ("Layout: a meta rewritten with freelist=none and a fresh checksum validates and keeps every other field (abandon); with the older meta in both slots Open presents it (revert). Pager: the free list rebuilt "
+         "by scanning is exactly free+pending = the unreachable pages (rebuild); the previous version's pages are intact directly after a commit (invariant). Tie: the CLI commands run in process after commits; "
+         "output decoded before any Open, then opened; content vs Spec.v (previous version for revert), accounting, Tx.Check, source SHA-256.",
+         "clear-page / copy-page / meta update surgery commands are not covered (not part of the property).", "DESIGN.md §8 C20"),
  "C15": ("Compact.v models walk + replay on the reference map without a limit parameter (commit points cannot change Spec content). Proved: copying a bucket's entries in walk order rebuilds exactly that bucket "
          "(one level, all contents); nested sources are covered by kernel-evaluated examples and by the tie only (theorem labelled partial). Tie: library and CLI compaction for 8 limits incl. 1, 2, 7 bytes vs the "
          "extracted model run on the decoded source image; destination Tx.Check; source SHA-256 before/after.",
